@@ -10,7 +10,7 @@ import os
 
 from . import c18
 from .c18 import (Sandbox, Recorder, Crash, Ids, snapshot, fs_json, canon_fs, entry_json, make_cset, gen_pre, gen_entries,
-                  has_symlinked_ancestor, classify_exc, model_trace, env_json, resolve_entries, diff_fs, _f, _d, _s, _e)
+                  has_symlinked_ancestor, classify_exc, model_trace, env_json, resolve_entries, diff_fs, gen_remerge, next_build, _f, _d, _s, _e)
 
 PID = "C19"
 LEAN_MODULES = ["Pkgcore.Props.C19"]
@@ -32,7 +32,8 @@ ASSUMPTIONS = c18.ASSUMPTIONS + [
     "half-way); half-written data blocks and injected EIO faults (the code's error handling under faults the model does not "
     "produce) are covered by the sampled runs only",
 ]
-RULE = ("random small contents trees over random pre-existing roots (generators of C18); for each, every mutating call k of the real merge "
+RULE = ("random small contents trees over random pre-existing roots (generators of C18) and re-merges (the root holds an earlier build of the "
+        "same package: same data and mtime with other owner and/or mode, same-size new data, other mtime, other type, dropped and new entries); for each, every mutating call k of the real merge "
         "is a crash point (fresh identical root, killed before call k), plus half-write crashes and EIO injection at every k; "
         "non-trivial = a crash point of a merge that replaces at least one pre-existing non-directory path and lies strictly inside the merge")
 
@@ -55,6 +56,27 @@ CORPUS = [
     ([_f(["z"]), _f(["a"], "6f")], [_e(["z"], "dir"), _e(["a"], "reg")], True),
     # missing parents
     ([], [_e(["n", "m", "o"], "reg"), _e(["n", "s"], "sym", target="m/o")], True),
+    # re-merge of the same build with other ownership and permissions (data, size and mtime unchanged; on-disk source)
+    ([_d(["b"]), _f(["b", "t"], "6e6577", mode=0o755, mtime=4242), _f(["b", "u"], "6e6577", mode=0o4711, mtime=4242)],
+     [_e(["b"], "dir"), _e(["b", "t"], "reg", mode=0o700, uid=1234 if c18.CAN_CHOWN else c18.MY_UID, gid=1234 if c18.CAN_CHOWN else c18.MY_GID, src="file"),
+      _e(["b", "u"], "reg", mode=0o755, uid=1000 if c18.CAN_CHOWN else c18.MY_UID, src="file")], True),
+]
+
+
+# two-step cases: (pre, contents of the interrupted merge, offset, contents of the complete merge that follows)
+SEQ_CORPUS = [
+    # an upgrade turns a library into a symlink to a file of the same upgrade, is interrupted, then is rolled back
+    ([_d(["lib"]), _f(["lib", "so"], "6f6c64")],
+     [_e(["lib"], "dir"), _e(["lib", "so"], "sym", target="so.2"), _e(["lib", "so.2"], "reg")], True,
+     [_e(["lib"], "dir"), _e(["lib", "so"], "reg", data="6f6c64")]),
+    # the other way round: a link is replaced by a file, interrupted, and the link comes back
+    ([_d(["lib"]), _s(["lib", "so"], "nowhere")],
+     [_e(["lib"], "dir"), _e(["lib", "so"], "reg")], False,
+     [_e(["lib"], "dir"), _e(["lib", "so"], "sym", target="so.3"), _e(["lib", "so.3"], "fifo")]),
+    # hard-link group interrupted, merged again
+    ([_f(["a"], "6f"), _f(["b"], "70")],
+     [_e(["a"], "reg", key=[1, 5]), _e(["b"], "reg", key=[1, 5])], True,
+     [_e(["a"], "reg", key=[1, 5]), _e(["b"], "reg", key=[1, 5]), _e(["c"], "reg", key=[1, 5])]),
 ]
 
 
@@ -89,18 +111,61 @@ def run_once(pre, ents, off, crash_at=None, eio_at=None, half=False):
         sb.cleanup()
 
 
+def run_then_remerge(pre, ents, off, k, ents2):
+    """interrupt the merge of `ents` before call k, then merge `ents2` completely over what survived (the same
+    long-lived root, as after a reboot); returns the snapshots before/after the second merge and its outcome"""
+    sb = Sandbox()
+    try:
+        um = os.umask(0o022)
+        try:
+            from pkgcore.fs import ops
+            if pre is not None:
+                sb.build(pre)
+            kw = {"offset": sb.root} if off else {}
+            with Recorder(sb.root, crash_at=k):
+                try:
+                    ops.merge_contents(make_cset(sb, ents, prefix="" if off else sb.root), **kw)
+                except Crash:
+                    pass
+                except Exception:  # noqa: BLE001
+                    pass
+            mid = snapshot(sb.root)
+            exc = None
+            with Recorder(sb.root) as rec:
+                try:
+                    ops.merge_contents(make_cset(sb, ents2, prefix="" if off else sb.root), **kw)
+                except Exception as e:  # noqa: BLE001
+                    exc = e
+            post = snapshot(sb.root)
+        finally:
+            os.umask(um)
+        return {"mid": mid, "post": post, "exc": exc, "outside": rec.outside}
+    finally:
+        sb.cleanup()
+
+
 def run(ctx):
     rng = ctx.rng
-    cases = [(pre, ents, off, "corpus") for pre, ents, off in CORPUS]
+    cases = [(pre, ents, off, "corpus") for pre, ents, off in CORPUS] + \
+            [(pre, ents, off, ("corpus-2step", ents2)) for pre, ents, off, ents2 in SEQ_CORPUS]
     if ctx.replay_cases:
         cases = [(c["pre"], c["entries"], c["offset"], "replay") for c in ctx.replay_cases if "entries" in c] + cases
-    for _ in range(ctx.n(90, 2000)):
+    for _ in range(ctx.n(60, 1600)):
+        if rng.random() < 0.45:
+            # re-merge: the root already holds an earlier build (same data and mtime, other owner/mode, …)
+            pre, ents = gen_remerge(rng, nmax=4)
+            if ents:
+                cases.append((pre, ents[:6], rng.random() < 0.5, "remerge"))
+            continue
         pre = gen_pre(rng, size=rng.randint(1, 6))
         ents = gen_entries(rng, pre, wellformed=rng.random() < 0.9)[: rng.randint(1, 5)]
         if ents:
             cases.append((pre, ents, rng.random() < 0.5, "random"))
     reqs, runs = [], []
     for pre, ents, off, origin in cases:
+        origin_second = None
+        if isinstance(origin, tuple):          # two-step corpus case: (label, contents of the merge after the crash)
+            origin, origin_second = origin
         full = run_once(pre, ents, off)
         ids = Ids()
         prej = fs_json(full["pre"], ids)
@@ -132,6 +197,23 @@ def run(ctx):
                 info["points"].append({"k": k, "mode": mode, "curj": curj, "ops": r["ops"], "exc": r["exc"], "outside": r["outside"],
                                        "req": len(reqs)})
                 reqs.append({"cmd": "c19.spec", "fs": prej, "entries": entj, "cur": curj})
+        # multi-step: a complete merge (same build, or the next one) over what an interrupted merge left behind
+        info["again"] = []
+        if n >= 2 and full["exc"] is None:
+            # preferably right before a rename (a finished '#new' sibling is lying around), plus a random point
+            before_rename = [i for i, o in enumerate(full["ops"]) if o[0] == "rename" and 0 < i < n]
+            ks = set(rng.sample(before_rename, min(2, len(before_rename)))) | {rng.randrange(1, n)}
+            for k in sorted(ks):
+                ents2 = origin_second if origin_second is not None else (ents if rng.random() < 0.4 else next_build(rng, ents))
+                if not ents2:
+                    continue
+                r2 = run_then_remerge(pre, ents, off, k, ents2)
+                if has_symlinked_ancestor(r2["mid"], ents2):
+                    continue
+                ids3 = Ids()
+                midj = fs_json(r2["mid"], ids3)
+                info["again"].append({"k": k, "ents2": ents2, "r": r2, "req": len(reqs)})
+                reqs.append({"cmd": "c18.spec", "fs": midj, "entries": [entry_json(e) for e in ents2], "final": fs_json(r2["post"], ids3)})
         runs.append(info)
     replies = ctx.model(reqs)
     for info in runs:
@@ -149,14 +231,28 @@ def run(ctx):
         replaces = sum(1 for e in case["entries"] if e["k"] != "dir" and tuple(e["p"]) in full["pre"]
                        and full["pre"][tuple(e["p"])]["k"] != "dir")
         rt = model_trace(full["ops"])
-        if m["result"] != res or rt != m["trace"]:
+        model_ok = m["result"] == res and rt == m["trace"]
+        if not model_ok:
+            # the property is still evaluated on the real crash states below (edge C)
             ctx.mismatch(case, "uninterrupted run: real %s / model %s, traces %s" % (res, m["result"], "equal" if rt == m["trace"] else "differ"))
-            continue
         # model's own crash points obey the theorem
         if not (guards - {"dirsym"}):
             bad = [k for k, f in enumerate(m["fail" if "dirsym" not in guards else "failW"]) if f]
             if bad:
                 ctx.mismatch(case, "model crash points %s violate the proved theorem?!" % bad[:5])
+        for ag in info.get("again", []):
+            sp2 = replies[ag["req"]]
+            acase = dict(case, interrupted_before_call=ag["k"], second_merge=ag["ents2"])
+            ctx.case(acase, ag["r"]["exc"] is None, key=repr((info["prej"], info["entj"], ag["k"], [entry_json(e) for e in ag["ents2"]])))
+            ctx.count("remerge_after_crash_" + classify_exc(ag["r"]["exc"]).split(":")[0])
+            if ag["r"]["outside"]:
+                ctx.violation(acase, "the merge after the crash touched paths outside the root: %r" % ag["r"]["outside"][:3])
+            elif ag["r"]["exc"] is None and sp2 != "bad-op" and sp2["placed"]:
+                if set(sp2["guards"]) & {"tmpclash", "symoverdir", "tree", "distinct", "hardlinkdata", "symlinkshared", "root"}:
+                    ctx.count("remerge_after_crash_in_a_C18_finding_or_illformed_class_not_claimed")
+                else:
+                    ctx.violation(acase, "a complete merge over the state the interrupted merge left behind does not place the contents "
+                                  "exactly (clauses %s): the interruption is still visible" % sp2["placed"])
         for pt in info["points"]:
             sp = replies[pt["req"]]
             k, mode = pt["k"], pt["mode"]
@@ -182,7 +278,7 @@ def run(ctx):
                 ctx.violation(pcase, "after %s at call %d of %d: %s is absent / half set up (directory entry over a symlink)" % (mode, k, full["n"], fail[:4]),
                               finding="C19-dir-over-symlink-window")
             # ---- edge A: same prefix in the model
-            if mode == "crash":
+            if mode == "crash" and model_ok:
                 ctx.traces += 1
                 mk = len(model_trace(full["ops"][:k]))
                 if model_trace(pt["ops"]) != m["trace"][:mk]:
